@@ -86,6 +86,15 @@ MCScenariosOf(s) ==
     [] s.fam = "globs" -> GlobScn(s)
     [] OTHER -> {}
 
+\* ---- self-test of the theorems (C05_selftest.cfg): a deliberately wrong flag table - --no-ignore-vcs
+\* forgets .git/info/exclude - must make TLC report a violation of the Algebra invariant
+MutSrcEnabled(src, N) ==
+  CASE src \in {"rgignore", "ignore"} -> "no-ignore-dot" \notin N
+    [] src = "gitignore"  -> "no-ignore-vcs" \notin N
+    [] src = "exclude"    -> "no-ignore-exclude" \notin N
+    [] src = "global"     -> "no-ignore-vcs" \notin N /\ "no-ignore-global" \notin N
+    [] src = "ignorefile" -> "no-ignore-files" \notin N
+
 \* placements of .git (as sets of levels)
 GitsAll == SUBSET (0..2)
 GitsSingle == {{}, {0}, {1}, {2}}
